@@ -134,6 +134,8 @@ func gateRequest(c map[string]interface{}) (*http.Request, bool) {
 		req.Header.Set("GRPC-Timeout", "5S")
 	case "bad":
 		req.Header.Set("GRPC-Timeout", "xyz")
+	case "expired":
+		req.Header.Set("GRPC-Timeout", "1n")
 	}
 	return req, isJSON
 }
